@@ -92,7 +92,7 @@ CHECKS = {
         "with an independent AES-256-CBC / XOR implementation WHICH key file encrypted each real ciphertext, records every key "
         "file the library opens or creates during dumps and loads (default key path redirected into the scratch directory) and "
         "searches the raw document bytes for secret plaintexts; all three are compared with the specification's event.",
-        note="Bounded instance MC_Persist/SchemaP (scalars, bytes, digest, secrets with methods xor/aes/best, typed list/dict of bytes and secrets, nested schema, config type naming its own key file with a nested schema below it, list of schemas with secrets, virtual fields), fixed candidate values, depth 3/4; formats are a typed channel in the specification (the real encoders run in conformance); ciphertexts/digests abstracted by independent AES/XOR/hashlib implementations.",
+        note="Bounded instance MC_Persist/SchemaP (scalars, bytes, digest, secrets with methods xor/aes/best, typed list/dict of bytes and secrets, nested schema, config type naming its own key file with a nested schema below it, list of schemas with secrets, virtual fields), fixed candidate values, depth 3/4; formats are a typed channel in the specification (the real encoders run in conformance); ciphertexts/digests abstracted by independent AES/XOR/hashlib implementations.  Also decided on the key-file placement family MC_Persist.SchemaK (three nested config types that may each name a key file x the root on the default or a named key file: 16 placements; quick = the all-named placement + two seeded ones, thorough = all), with ready-made type instances assigned and inserted.",
         technique="TLA+ invariants on key resolution over the schema tree; replay with real key files, independent decryption decides the key used",
         design="5/C03",
     ),
@@ -219,7 +219,7 @@ CHECKS = {
         "parses the real argv, cmdline_args_override applies it, and Describe cases compare get_all_fields / schema[path] / "
         "item_ref_path / config[path] / membership / the option table for a schema built top-down and one assembled bottom-up.",
         note="One schema instance (all scalar storage types, list, virtual field, two nested levels, keys with '_'), 17 command "
-        "lines x 3 ignore lists (none / str / list) x configuration states; root schemas only; argparse abbreviations disabled.",
+        "lines x 3 ignore lists (none / str / list) x configuration states; root schemas only; argparse abbreviations disabled.  Two further schema shapes (SchemaG2: every string-like field class, port, fields without an option, three nesting levels with '_' and digits in keys, a config type; SchemaG3: options only below the root) with command lines, ignore lists and assignments derived from the schema's own option table (MC_Arg.GenArgPool / GenIgnore / GenSetCandsA).",
         technique="TLA+ model of enumeration, lookup, option generation, argparse and override + TLC; transition replay through the real parser",
         design="5/C16",
     ),
